@@ -617,7 +617,9 @@ func decOpOf(k string, packed bool) string {
 	return o
 }
 
-func u32of(a []int) uint32 { return uint32(a[0]) | uint32(a[1])<<8 | uint32(a[2])<<16 | uint32(a[3])<<24 }
+func u32of(a []int) uint32 {
+	return uint32(a[0]) | uint32(a[1])<<8 | uint32(a[2])<<16 | uint32(a[3])<<24
+}
 func u64of(a []int) uint64 {
 	var v uint64
 	for i := 0; i < 8; i++ {
